@@ -1267,7 +1267,8 @@ async def run_async(ctx: Ctx, use_model: bool, scale: dict):
         if dispatch_level:
             c["srcstate"] = "as-captured"
             extra.append(with_state(c, "other-verified-peer-at-src"))
-            extra.append(with_state(c, "source-blacklisted"))
+            if c["op"] in ("unmodified", "replay-other-overlay"):
+                extra.append(with_state(c, "source-blacklisted"))
             if okey is not None:
                 extra.append(with_state(c, "signer-verified-at-src"))
                 extra.append(with_state(c, "signer-verified-elsewhere"))
@@ -1687,7 +1688,7 @@ SCALES = {
                "unsigned_samples": 40, "pack_cases": 0, "identity_stride": 2, "base_stride": 2},
     # the same implementation-only run in a child interpreter started with -O (assert statements compiled away)
     "child": {"history_steps": 0, "capture_rounds": 1, "per_pair": 1, "flips": 1, "every_byte_upto": 0, "every_byte_stride": 1,
-              "unsigned_samples": 10, "pack_cases": 0, "identity_stride": 8, "base_stride": 5, "pair_stride": 4},
+              "unsigned_samples": 10, "pack_cases": 0, "identity_stride": 8, "base_stride": 6, "pair_stride": 4},
 }
 
 
@@ -1848,10 +1849,14 @@ async def replay(ctx: Ctx, rec: dict):
             payload_bad = len(got) == len(want) and [g.to_pack_list() for g in got] != [w.to_pack_list() for w in want]
         except BaseException:
             payload_bad = False
-    bad = bad or bool(moved_bad) or payload_bad
+    credited_bad = [k for k in getattr(obs, "credited", [])
+                    if not (sp["authentic"] and (real_parse(k) or (None, None, k))[2] == sp["canon"]
+                            and data[:22] == tbn[r["overlay"]]["prefix"])]
+    bad = bad or bool(moved_bad) or payload_bad or bool(credited_bad)
     print(f"replay: {r['overlay']} msg {data[22] if len(data) > 22 else '-'} operator {r.get('operator')}: "
           f"spec authentic={sp['authentic']}; handler entered={any_entry}; new verified keys={len(new_keys)}; "
-          f"stored peers re-pointed without authentication={len(moved_bad)}; payloads differ from signed bytes={payload_bad}; "
+          f"stored peers re-pointed without authentication={len(moved_bad)}; liveness credited to a named key={len(credited_bad)}; "
+          f"payloads differ from signed bytes={payload_bad}; "
           f"property {'FAILS' if bad else 'holds'}")
     if bad:
         ctx.oracle_fail("replay", "replayed input still fails", r)
